@@ -12,13 +12,16 @@ import (
 	"sync"
 
 	"github.com/consensys/gnark/constraint"
+	"github.com/consensys/gnark/frontend"
 	"github.com/consensys/gnark/test"
 	iden3 "github.com/iden3/go-iden3-crypto/poseidon"
 
 	"verifharness/circuits"
 	"verifharness/gen"
 	"verifharness/r1csx"
+
 	"verifharness/ref"
+	"worldcoin/gnark-mbu/prover/poseidon"
 )
 
 var fields = []*big.Int{gen.BN254, big.NewInt(101), big.NewInt(65537), new(big.Int).Sub(new(big.Int).Lsh(big.NewInt(1), 61), big.NewInt(1)), big.NewInt(47)}
@@ -45,6 +48,130 @@ func edge(g *gen.G, p *big.Int) *big.Int {
 	return g.Field(p)
 }
 
+// ---- steering: inputs for which chosen state elements entering the first or the second MDS layer
+// take a special value (0, 1, p-1).  Engines and builders shortcut multiplications by 0 and 1, so
+// these are the values at which an implementation detail of the API can show.
+
+func constBig(v frontend.Variable) *big.Int {
+	switch t := v.(type) {
+	case big.Int:
+		return new(big.Int).Set(&t)
+	case *big.Int:
+		return new(big.Int).Set(t)
+	case int:
+		return big.NewInt(int64(t))
+	case string:
+		x, _ := new(big.Int).SetString(t, 0)
+		return x
+	}
+	panic(fmt.Sprintf("unexpected constant type %T", v))
+}
+
+func snapshot(tab [][]frontend.Variable) [][]*big.Int {
+	out := make([][]*big.Int, len(tab))
+	for i := range tab {
+		out[i] = make([]*big.Int, len(tab[i]))
+		for j := range tab[i] {
+			out[i][j] = constBig(tab[i][j])
+		}
+	}
+	return out
+}
+
+func sameTable(a [][]*big.Int, tab [][]frontend.Variable) bool {
+	b := snapshot(tab)
+	if len(a) != len(b) {
+		return false
+	}
+	for i := range a {
+		if len(a[i]) != len(b[i]) {
+			return false
+		}
+		for j := range a[i] {
+			if a[i][j].Cmp(b[i][j]) != 0 {
+				return false
+			}
+		}
+	}
+	return true
+}
+
+// steer returns inputs (t-1 of them) for width t over BN254; layer 1 or 2; which: the state
+// positions (t-1 of them for layer 2, any of 1..t-1 for layer 1) forced to the targets.
+func steer(C, M [][]*big.Int, t, layer int, targets []*big.Int, skip int) []*big.Int {
+	p := gen.BN254
+	mod := func(x *big.Int) *big.Int { return x.Mod(x, p) }
+	inv5 := new(big.Int).ModInverse(big.NewInt(5), new(big.Int).Sub(p, big.NewInt(1)))
+	root5 := func(x *big.Int) *big.Int { return new(big.Int).Exp(x, inv5, p) }
+	pow5 := func(x *big.Int) *big.Int { return new(big.Int).Exp(x, big.NewInt(5), p) }
+	in := make([]*big.Int, t-1)
+	if layer == 1 {
+		for j := 1; j < t; j++ {
+			in[j-1] = mod(new(big.Int).Sub(root5(targets[(j-1)%len(targets)]), C[0][j]))
+		}
+		return in
+	}
+	// layer 2: rows = all positions except `skip`
+	var rows []int
+	for i := 0; i < t; i++ {
+		if i != skip {
+			rows = append(rows, i)
+		}
+	}
+	y0 := pow5(C[0][0])
+	rhs := make([]*big.Int, len(rows))
+	for k, i := range rows {
+		z := new(big.Int).Sub(root5(targets[k%len(targets)]), C[1][i])
+		z.Sub(z, new(big.Int).Mul(M[i][0], y0))
+		rhs[k] = mod(z)
+	}
+	y := make([]*big.Int, t)
+	y[0] = y0
+	if t == 2 {
+		y[1] = mod(new(big.Int).Mul(rhs[0], new(big.Int).ModInverse(M[rows[0]][1], p)))
+	} else {
+		a, b, c, d := M[rows[0]][1], M[rows[0]][2], M[rows[1]][1], M[rows[1]][2]
+		det := mod(new(big.Int).Sub(new(big.Int).Mul(a, d), new(big.Int).Mul(b, c)))
+		di := new(big.Int).ModInverse(det, p)
+		y[1] = mod(new(big.Int).Mul(mod(new(big.Int).Sub(new(big.Int).Mul(rhs[0], d), new(big.Int).Mul(b, rhs[1]))), di))
+		y[2] = mod(new(big.Int).Mul(mod(new(big.Int).Sub(new(big.Int).Mul(a, rhs[1]), new(big.Int).Mul(rhs[0], c))), di))
+	}
+	for j := 1; j < t; j++ {
+		in[j-1] = mod(new(big.Int).Sub(root5(y[j]), C[0][j]))
+	}
+	return in
+}
+
+// entering computes the state entering MDS layer 1 or 2 for the given inputs (forward direction; used
+// to confirm that steer produced what was asked for).
+func entering(C, M [][]*big.Int, t, layer int, in []*big.Int) []*big.Int {
+	p := gen.BN254
+	st := make([]*big.Int, t)
+	st[0] = big.NewInt(0)
+	for j := 1; j < t; j++ {
+		st[j] = in[j-1]
+	}
+	for r := 0; r < layer; r++ {
+		for i := range st {
+			x := new(big.Int).Add(st[i], C[r][i])
+			st[i] = x.Exp(x.Mod(x, p), big.NewInt(5), p)
+		}
+		if r == layer-1 {
+			break
+		}
+		out := make([]*big.Int, t)
+		for i := range out {
+			acc := big.NewInt(0)
+			for j := range st {
+				acc.Add(acc, new(big.Int).Mul(M[i][j], st[j]))
+			}
+			out[i] = acc.Mod(acc, p)
+		}
+		st = out
+	}
+	return st
+}
+
 func main() {
 	seed := flag.Int64("seed", 1, "seed")
 	n := flag.Int("n", 100, "cases")
@@ -60,6 +187,8 @@ func main() {
 	var wg sync.WaitGroup
 	sem := make(chan struct{}, *par)
 	var mu sync.Mutex
+	c3, m3, c2, m2 := snapshot(poseidon.CONSTANTS_3), snapshot(poseidon.MDS_3), snapshot(poseidon.CONSTANTS_2), snapshot(poseidon.MDS_2)
+	special := []*big.Int{big.NewInt(0), big.NewInt(1), new(big.Int).Sub(gen.BN254, big.NewInt(1))}
 	for c := 0; c < *n; c++ {
 		p := fields[0]
 		if g.Chance(1, 4) {
@@ -67,6 +196,45 @@ func main() {
 		}
 		a, b := edge(g, p), edge(g, p)
 		one := g.Chance(1, 3)
+		if c%5 == 4 || c < 12 {
+			// steered case (BN254): the first dozen cases enumerate (1,1), (0,0), (1,0) … at layer 2
+			p = fields[0]
+			t0, t1 := special[g.Intn(3)], special[g.Intn(3)]
+			layer, skip := 1+g.Intn(2), 2
+			if c < 12 {
+				t0, t1, layer = special[(c/2)%3], special[(c/6+c/2)%3], 2
+				if c < 2 {
+					t0, t1 = special[1], special[1]
+				}
+			} else if g.Chance(1, 3) {
+				skip = g.Intn(2)
+			}
+			hit := 0
+			if one {
+				sk := g.Intn(2)
+				a = steer(c2, m2, 2, layer, []*big.Int{t0}, sk)[0]
+				for i, v := range entering(c2, m2, 2, layer, []*big.Int{a}) {
+					if (layer == 1 && i == 1 || layer == 2 && i != sk) && v.Cmp(t0) == 0 {
+						hit++
+					}
+				}
+			} else {
+				in := steer(c3, m3, 3, layer, []*big.Int{t0, t1}, skip)
+				a, b = in[0], in[1]
+				for _, v := range entering(c3, m3, 3, layer, in) {
+					if v.Cmp(t0) == 0 || v.Cmp(t1) == 0 {
+						hit++
+					}
+				}
+			}
+			if hit == 0 {
+				fmt.Fprintf(os.Stderr, "corrposeidon: internal error: steering missed its target (layer %d)\n", layer)
+				os.Exit(2)
+			}
+			mu.Lock()
+			stat[fmt.Sprintf("steered-layer%d", layer)]++
+			mu.Unlock()
+		}
 		c := c
 		wg.Add(1)
 		sem <- struct{}{}
@@ -138,6 +306,22 @@ func main() {
 	wg.Wait()
 	for _, r := range results {
 		fmt.Fprintf(gen.Out, "%s\t=>\t%s\n", r.line, r.res)
+	}
+	// the parameter tables are constants: nothing evaluated above may have written to them.  After the
+	// evaluations, the hash of (1, 2) is recomputed in the engine and in a freshly compiled R1CS.
+	{
+		res := "ok"
+		if !(sameTable(c3, poseidon.CONSTANTS_3) && sameTable(m3, poseidon.MDS_3) && sameTable(c2, poseidon.CONSTANTS_2) && sameTable(m2, poseidon.MDS_2)) {
+			res = "parameter tables modified by evaluating the gadget"
+		}
+		want, _ := iden3.Hash([]*big.Int{big.NewInt(1), big.NewInt(2)})
+		if test.IsSolved(&circuits.Poseidon2Circuit{}, &circuits.Poseidon2Circuit{A: 1, B: 2, Out: want}, gen.BN254) != nil {
+			res += "; Poseidon2(1,2) afterwards: gadget-rejects-reference(test-engine)"
+		}
+		if fresh, err := r1csx.Compile(&circuits.Poseidon2Circuit{}); err != nil || r1csx.Solve(fresh, &circuits.Poseidon2Circuit{A: 1, B: 2, Out: want}, nil) != nil {
+			res += "; Poseidon2(1,2) afterwards: gadget-rejects-reference(freshly compiled r1cs)"
+		}
+		fmt.Fprintf(gen.Out, "tables\tafter-%d-evaluations\t=>\t%s\n", *n, res)
 	}
 	fmt.Fprintf(os.Stderr, "{")
 	first := true
